@@ -30,6 +30,8 @@ Definition ty_str (q : style) (t : ty) : string :=
   | TBool => "Boolean"
   | TStr => "String"
   | TList b => "List(" ++ bty_str q b ++ ")"
+  | TBox d n => (match d with DA => "BoxA(" | DB => "BoxB(" end)
+                ++ bty_str q (match n with NMI => BMI | NInt => BInt end) ++ ")"
   end.
 
 (* string literals: underscore-quote stands for a quote, underscore-underscore for an
@@ -100,6 +102,11 @@ Definition prim_str (q : style) (p : prim) (a : list string) : string :=
   | PLEmptyQ _, [x] => "empty?(" ++ x ++ ")"
   | PLRev _, [x] => "reverse(" ++ x ++ ")"
   | PLNth _, [x; y] => "(" ++ x ++ ".(" ++ y ++ "))"
+  | PBox d n, [x] => "(box(" ++ x ++ ")@" ++ ty_str q (TBox d n) ++ ")"
+  | PUnbox _ _, [x] => "unbox(" ++ x ++ ")"
+  | PBump _ _, [x] => "bump(" ++ x ++ ")"
+  | PTwice _ _, [x] => "twice(" ++ x ++ ")"
+  | PScale _ _, [x; y] => "scale(" ++ x ++ ", " ++ y ++ ")"
   | _, _ => "?prim(" ++ sep_by ", " a ++ ")"
   end.
 
@@ -242,6 +249,42 @@ Definition exn_item (it : item) : bool :=
   | IStmt s => exn_s s
   end.
 
+(* does the program use the Box domains (then the header defines and imports them) *)
+Definition is_box_ty (t : ty) : bool := match t with TBox _ _ => true | _ => false end.
+Definition is_box_prim (p : prim) : bool :=
+  match p with PBox _ _ | PUnbox _ _ | PBump _ _ | PTwice _ _ | PScale _ _ => true | _ => false end.
+Fixpoint box_e (e : expr) : bool :=
+  match e with
+  | ELit _ | EGlob _ | ELoc _ => false
+  | EPrim p args => (is_box_prim p || existsb box_e args)%bool
+  | ECall _ args | EListLit _ args => existsb box_e args
+  | EIf c a b => (box_e c || box_e a || box_e b)%bool
+  | EAnd a b | EOr a b => (box_e a || box_e b)%bool
+  | ESeq ss e' => (existsb box_s ss || box_e e')%bool
+  | EMac _ e' => box_e e'
+  end
+with box_s (s : stmt) : bool :=
+  match s with
+  | SAssG _ e | SAssL _ e | SReturn e | SError e => box_e e
+  | SPrint es | SCall _ es => existsb box_e es
+  | SIf c a b => (box_e c || existsb box_s a || existsb box_s b)%bool
+  | SWhile c body => (box_e c || existsb box_s body)%bool
+  | SFor lo hi body => (box_e lo || box_e hi || existsb box_s body)%bool
+  | SForIn _ l body => (box_e l || existsb box_s body)%bool
+  | SBreak | SIterate | SNever | SThrow _ => false
+  | SExit c s' => (box_e c || box_s s')%bool
+  | SExitV c e => (box_e c || box_e e)%bool
+  | STry body hs => (existsb box_s body || existsb (fun h => existsb box_s (snd h)) hs)%bool
+  end.
+Definition box_item (it : item) : bool :=
+  match it with
+  | IConst t e | IVar t e => (is_box_ty t || box_e e)%bool
+  | IFun fd => (existsb is_box_ty (fd_ret fd :: fd_params fd)
+                || existsb (fun le => (is_box_ty (fst le) || box_e (snd le))%bool) (fd_locals fd)
+                || existsb box_s (fd_body fd) || box_e (fd_result fd))%bool
+  | IStmt s => box_s s
+  end.
+
 (* does the program use lists (then the header imports the four List domains) *)
 Definition is_list_ty (t : ty) : bool := match t with TList _ => true | _ => false end.
 Definition is_list_prim (p : prim) : bool :=
@@ -331,6 +374,29 @@ Definition exn_decls : string :=
     (map (fun k => "define " ++ exn_str k ++ "Type: Category == with;" ++ nl
                    ++ exn_str k ++ ": " ++ exn_str k ++ "Type == add;" ++ nl) (seq 0 n_exn)).
 
+(* a category with defaults, parametrised by T: IntegerType, and two parametrised domains
+   of that category (langtype.tex:1019-1046 Rep/rep/per, 1488-1528 defaults, 1632-1663
+   parametrised categories and domains)                                                 *)
+Definition dom_decls (q : style) : string :=
+  "define BoxCat(T: IntegerType): Category == with {" ++ nl ++
+  "    box: T -> %;" ++ nl ++ "    unbox: % -> T;" ++ nl ++ "    bump: % -> %;" ++ nl ++
+  "    twice: % -> %;" ++ nl ++ "    scale: (%, T) -> %;" ++ nl ++
+  "    default {" ++ nl ++
+  "        twice(x: %): % == bump(bump(x));" ++ nl ++
+  "        scale(x: %, k: T): % == box(unbox(x) * k);" ++ nl ++
+  "    }" ++ nl ++ "}" ++ nl ++
+  "BoxA(T: IntegerType): BoxCat(T) == add {" ++ nl ++
+  "    Rep == T;" ++ nl ++ "    import from Rep;" ++ nl ++
+  "    box(v: T): % == per v;" ++ nl ++ "    unbox(x: %): T == rep x;" ++ nl ++
+  "    bump(x: %): % == per(rep x + 1);" ++ nl ++ "}" ++ nl ++
+  "BoxB(T: IntegerType): BoxCat(T) == add {" ++ nl ++
+  "    Rep == T;" ++ nl ++ "    import from Rep;" ++ nl ++
+  "    box(v: T): % == per v;" ++ nl ++ "    unbox(x: %): T == rep x;" ++ nl ++
+  "    bump(x: %): % == per(rep x + rep x);" ++ nl ++
+  "    scale(x: %, k: T): % == per(rep x * k + 1);" ++ nl ++ "}" ++ nl ++
+  "import from BoxA(" ++ bty_str q BMI ++ "), BoxA(" ++ bty_str q BInt ++ "), BoxB("
+  ++ bty_str q BMI ++ "), BoxB(" ++ bty_str q BInt ++ ");" ++ nl.
+
 Definition header (q : style) : string :=
   "#include " ++ quote ++ "aldor" ++ quote ++ nl ++
   "#include " ++ quote ++ "aldorio" ++ quote ++ nl ++
@@ -347,6 +413,7 @@ Definition header_of (q : style) (p : prog) : string :=
   ++ (if existsb lst_item p
       then "import from List(" ++ bty_str q BMI ++ "), List(" ++ bty_str q BInt ++ "), List(Boolean), List(String);" ++ nl
       else "")
-  ++ (if existsb exn_item p then exn_decls else "").
+  ++ (if existsb exn_item p then exn_decls else "")
+  ++ (if existsb box_item p then dom_decls q else "").
 
 Definition render (q : style) (p : prog) : string := header_of q p ++ String.concat "" (items_src q 0 p).
